@@ -121,13 +121,15 @@ REGENERATED = {
            "window loop, defaults) is REGENERATED from match.py as a term of the glue language (Gen/MatchGlue.v) and proved equal to the model's match_ref "
            "(C01_glue_match_ref, C01_glue_match_defaults).",
     "C03": " The window loop of _interval_integral_matching_stretch (zip over targets and consecutive fixed points, end+1, in-place slice assignment) is "
-           "REGENERATED (Gen/MatchGlue.v) and proved equal to the model's interval_match (C03_glue_interval_loop).",
+           "REGENERATED (Gen/MatchGlue.v) and proved equal to the model's interval_match (C03_glue_interval_loop); so is the whole stretching kernel "
+           "_integral_matching_stretch (method check, two-point special case, rule dispatch, final update: C03_glue_stretch_kernel).",
     "C04": " The rfa() bodies of PiecewiseConstantRFA / FunctionRFA and the oversampling helpers are REGENERATED (Gen/RfaGlue.v) and proved equal to the model.",
     "C05": " The strategy constructors' window computations are REGENERATED (Gen/Kernels.v) and proved equal to the model's window functions; the rfa() "
            "bodies of the two fixed-window strategies (nested write loops over IntervalArrays) are REGENERATED (Gen/RfaGlue.v) and proved equal to the "
            "write-loop model that the link theorems refine to the closed forms.",
     "C06": " The generic branch of get_adaptive_transition_points is REGENERATED (Gen/Kernels.v) and proved equal to adaptive_pair; the rfa() bodies of the "
-           "two adaptive strategies are REGENERATED (Gen/RfaGlue.v) and proved equal to the write-loop model.",
+           "two adaptive strategies and the whole of get_adaptive_transition_points (tie tests, int(a/2), the smoothed split with both clips) are REGENERATED "
+           "(Gen/RfaGlue.v) and proved equal to the write-loop model / adaptive_windows.",
     "C08": " Every method body of class Weaver is REGENERATED from weaver.py as a term of the glue language (Gen/WeaverGlue.v) and running it is proved equal to "
            "one step of the model for every operation (C09_glue_generated; domain corollary C08_glue_domain); the per-method write footprint is REGENERATED "
            "too (Gen/WeaverFootprint.v) and the reference is assigned iff the working series is.",
@@ -135,7 +137,9 @@ REGENERATED = {
            "weaver.py (Gen/WeaverGlue.v) and running it under the interpreter of Model/GlueSem.v is proved equal to the model's step / init / queries for every "
            "operation, state and argument — also the partial state an exception leaves behind (C09_glue_generated, C09_glue_init, C09_glue_getters, "
            "C09_glue_imports); footprint theorems over Gen/WeaverFootprint.v.",
-    "C10": " The dispatcher find_closest_element_indices_to_values is REGENERATED (Gen/UtilsGlue.v) and proved equal to the model's find_indices.",
+    "C10": " The three two-pointer scans themselves (while loops over explicit iterators) are REGENERATED (Gen/ScanGlue.v) and, run by the fuelled interpreter of "
+           "Model/GlueWhile.v, proved equal to the scans of Model/Search.v (C10_glue_find_lower / _higher / _closest, explicit fuel bound); the dispatcher "
+           "find_closest_element_indices_to_values likewise (Gen/UtilsGlue.v).",
     "C11": " The bodies of process.truncate, Weaver.slice_by_index / slice_by_value / truncate_by_* are REGENERATED (Gen/ProcessGlue.v, Gen/WeaverGlue.v) and proved "
            "equal to the model (C11_glue_truncate, C11_glue_slice_*).",
     "C12": " The body of process.repeat (tiling, the loop over the copies, the in-place slice update with the junction gap) is REGENERATED (Gen/ProcessGlue.v) and "
@@ -144,7 +148,8 @@ REGENERATED = {
            "every other method name except 'cubic' / 'spline' (C13_glue_interpolate).",
     "C14": " The bodies of process.trend (the per-sample loop, both branches of `normalized`) and process.normalize are REGENERATED (Gen/ProcessGlue.v) and proved equal "
            "to the model (C14_glue_trend, C14_glue_normalize).",
-    "C17": " The bodies of append_one_sample, integral and the two integration rules are REGENERATED (Gen/UtilsGlue.v) and proved equal to the model.",
+    "C17": " The bodies of append_one_sample, integral, the two integration rules, extend_constant, extend_linspace and oversample_piecewise_constant are "
+           "REGENERATED (Gen/UtilsGlue.v) and proved equal to the model.",
     "C18": " The name dispatch of load_dataset and the data-home resolution are REGENERATED from datasets/_base.py (Gen/Dispatch.v) and proved equal to the model.",
     "C19": " The loader's guards (download / refuse / read cache), the retry give-up test and counter update, the checksum rejection, and the order and scoping of "
            "its effects (fresh TemporaryDirectory inside the dataset directory; download, parse source, pickle target and rename source all inside it; rename "
